@@ -4,6 +4,7 @@ import (
 	"bytes"
 	"fmt"
 	"strings"
+	"sync"
 	"testing"
 
 	"github.com/icon-project/goloop/module"
@@ -266,6 +267,9 @@ func TestC33(t *testing.T) {
 	t.Run("relay", func(t *testing.T) {
 		ev.Check(t, 12000, 200000, func(rt *rapid.T) { c33Case(rt, rec) })
 	})
+	t.Run("concurrent", func(t *testing.T) {
+		ev.Check(t, 24, 400, func(rt *rapid.T) { c33Concurrent(rt, rec) })
+	})
 	t.Run("window", func(t *testing.T) {
 		ev.Check(t, 40, 600, func(rt *rapid.T) { c33Window(rt, rec) })
 	})
@@ -384,5 +388,89 @@ func c33Window(rt *rapid.T, rec *ev.Rec) {
 	rec.Case(desc, decided > 0 && gap >= bl, labels...)
 	if fail != "" {
 		rt.Fatalf("C33 violated: %s | case: %s", fail, desc)
+	}
+}
+
+// c33Concurrent: every peer connection has its own receive goroutine, so copies of one flooded packet relayed by
+// several neighbours reach onPacket at practically the same moment. "Delivered once" has to hold for every
+// interleaving of those calls: k goroutines are released together, each hands the node its own parsed copy of the
+// packet through another peer, and the application callback must have run at most once per packet. The harness
+// does not own the Go scheduler here; the oracle is an invariant of every schedule (no alarm is possible on code
+// that keeps it), detection of a broken node is statistical (hundreds of rounds per case).
+func c33Concurrent(rt *rapid.T, rec *ev.Rec) {
+	log := hnQuietLogger()
+	self := bytes.Repeat([]byte{0x51}, network.VerifPeerIDSize)
+	stranger := bytes.Repeat([]byte{0x52}, network.VerifPeerIDSize)
+	p2p := network.VerifNewP2P(self, log)
+	var mu sync.Mutex
+	got := map[uint64]int{}
+	p2p.VerifSetCallback(c33Proto, func(pkt *network.Packet, p *network.Peer) {
+		h := network.VerifPacketFieldsOf(pkt).Hash
+		mu.Lock()
+		got[h]++
+		mu.Unlock()
+	})
+	k := rapid.IntRange(2, 8).Draw(rt, "relays")
+	var peers []*network.Peer
+	for i := 0; i < k; i++ {
+		conn, _ := hnPipe()
+		id := bytes.Repeat([]byte{byte(0x61 + i)}, network.VerifPeerIDSize)
+		peers = append(peers, network.VerifNewPeer(conn, id, byte(module.RoleValidator), 1+byte(i%3), []module.ProtocolInfo{c33Proto}, log))
+	}
+	rounds := rapid.IntRange(200, ev.Pick(500, 1500)).Draw(rt, "rounds")
+	tag := rapid.IntRange(0, 1<<20).Draw(rt, "tag")
+	desc := fmt.Sprintf("concurrent: %d rounds, one flooded packet per round handed to the node by %d peers at once", rounds, k)
+	twice, never := 0, 0
+	var example string
+	for r := 0; r < rounds; r++ {
+		f := network.VerifPacketFields{Src: stranger, Dest: network.VerifDestAny, TTL: 0, Protocol: uint16(c33Proto),
+			Payload: []byte{'c', byte(tag >> 16), byte(tag >> 8), byte(tag), byte(r >> 8), byte(r)}}
+		wire, w := c30Write([]*c30pkt{{f: f}})
+		if w != "" {
+			ev.Inconclusive("C33: cannot serialise a packet: %s", w)
+		}
+		pkts := make([]*network.Packet, k)
+		for i := range pkts {
+			pkts[i] = &network.Packet{}
+			if _, err := pkts[i].ReadFrom(bytes.NewReader(wire)); err != nil {
+				ev.Inconclusive("C33: cannot parse a packet the harness wrote: %v", err)
+			}
+		}
+		var ready, done sync.WaitGroup
+		start := make(chan struct{})
+		ready.Add(k)
+		done.Add(k)
+		for i := 0; i < k; i++ {
+			go func(i int) {
+				defer done.Done()
+				ready.Done()
+				<-start
+				p2p.VerifOnPacket(pkts[i], peers[i])
+			}(i)
+		}
+		ready.Wait()
+		close(start)
+		done.Wait()
+		h := network.VerifPacketFieldsOf(pkts[0]).Hash
+		mu.Lock()
+		n := got[h]
+		mu.Unlock()
+		switch {
+		case n > 1:
+			twice++
+			if example == "" {
+				example = fmt.Sprintf("round %d: packet %x was handed to the application %d times", r, h, n)
+			}
+		case n == 0:
+			never++
+		}
+	}
+	labels := []string{"concurrent", fmt.Sprintf("concurrent:relays=%d", k)}
+	if never > 0 {
+		labels = append(labels, "concurrent:someNeverDelivered")
+	}
+	rec.Case(desc, true, labels...)
+	if twice > 0 {
+		rt.Fatalf("C33 violated: %d of %d flooded packets were delivered more than once when %d peers relayed them at the same moment (%s) | case: %s", twice, rounds, k, example, desc)
 	}
 }
